@@ -2,3 +2,5 @@ import Model.Basic
 import Model.Vector
 import Model.Frame
 import Model.Group
+import Model.LoD
+import Model.Obsolete
